@@ -83,6 +83,77 @@ static size_t h_run_script(ZSTD_CCtx* c, const uint8_t* src, size_t n, const hsc
     return outPos;
 }
 
+/* ---------------- alternative compression entry points for the same scripts (C02 / C05): stable-buffer modes, buffer-less, ZBUFF */
+enum { HA_STREAM2 = 0, HA_LEGACY = 1, HA_STABLE_IN, HA_STABLE_OUT, HA_STABLE_BOTH, HA_BUFFERLESS, HA_BUFFERLESS_SCATTER, HA_BUFFERLESS_COPYCCTX, HA_ZBUFF, HA_NB };
+static const char* const ha_name[HA_NB] = { "stream2", "legacy", "stable-in", "stable-out", "stable-in+out", "bufferless", "bufferless-scattered-segments", "bufferless-copyCCtx", "ZBUFF" };
+#define HA_IS_STABLE(a) ((a) >= HA_STABLE_IN && (a) <= HA_STABLE_BOTH)
+#define HA_IS_LEVELONLY(a) ((a) >= HA_BUFFERLESS)
+
+/* stable-buffer contracts: stable-in = same src pointer, pos only moved by zstd, size may grow; stable-out = same buffer, (size - pos) never changed by the caller */
+static size_t h_run_stable(ZSTD_CCtx* c, int api, const uint8_t* src, size_t n, const hscript* S, uint8_t* dst, size_t dstCap, long* callBudgetExceeded)
+{
+    int const sIn = (api == HA_STABLE_IN || api == HA_STABLE_BOTH), sOut = (api == HA_STABLE_OUT || api == HA_STABLE_BOTH);
+    ZSTD_inBuffer in = { src, 0, 0 }; ZSTD_outBuffer out = { dst, dstCap, 0 }; size_t inBase = 0, outPos = 0; long calls = 0; int oi = 0;
+    long const maxCalls = 64 + 8 * (long)S->nseg + 8 * (long)(ZSTD_compressBound(n) / (S->outPat[0] ? S->outPat[0] : 1)) + (long)(n / 16);
+    for (int s = 0; s < S->nseg; s++) {
+        ZSTD_inBuffer lin = { src + inBase, S->seg[s].len, 0 }; int const dir = S->seg[s].dir;
+        if (sIn) in.size = inBase + S->seg[s].len;
+        for (;;) {
+            ZSTD_inBuffer* const ip = sIn ? &in : &lin; ZSTD_outBuffer lo; ZSTD_outBuffer* op = &out;
+            if (!sOut) { size_t const room = S->outPat[oi++ % S->nOut]; lo.dst = dst + outPos; lo.size = room < dstCap - outPos ? room : dstCap - outPos; lo.pos = 0; op = &lo; if (lo.size == 0) return (size_t)-ZSTD_error_dstSize_tooSmall; }
+            size_t const ret = ZSTD_compressStream2(c, op, ip, (ZSTD_EndDirective)dir);
+            if (ZSTD_isError(ret)) return ret;
+            if (!sOut) outPos += lo.pos;
+            if (++calls > maxCalls) { if (callBudgetExceeded) *callBudgetExceeded = calls; return (size_t)-ZSTD_error_GENERIC; }
+            if (dir == ZSTD_e_continue) { if (ip->pos == ip->size) break; }
+            else if (ret == 0 && ip->pos == ip->size) break;
+        }
+        inBase += S->seg[s].len;
+    }
+    return sOut ? out.pos : outPos;
+}
+/* buffer-less: Begin*, Continue per script segment (input consumed entirely each call, prior input stays accessible), End with the last segment */
+typedef struct { int level; int useAdvanced; ZSTD_parameters zp; int pledge; const uint8_t* dict; size_t dictLen; } hbl;
+static size_t h_run_bufferless(ZSTD_CCtx* c, int api, const uint8_t* src, size_t n, const hscript* S, uint8_t* dst, size_t dstCap, const hbl* B)
+{
+    size_t e; ZSTD_CCtx* c2 = NULL; ZSTD_CCtx* cc = c; size_t inPos = 0, op = 0; void** keep = NULL; int nkeep = 0;
+    unsigned long long const pledged = B->pledge ? (unsigned long long)n : ZSTD_CONTENTSIZE_UNKNOWN;
+    if (B->useAdvanced) e = ZSTD_compressBegin_advanced(c, B->dict, B->dictLen, B->zp, pledged);
+    else if (B->dict) e = ZSTD_compressBegin_usingDict(c, B->dict, B->dictLen, B->level);
+    else e = ZSTD_compressBegin(c, B->level);
+    if (ZSTD_isError(e)) return e;
+    if (api == HA_BUFFERLESS_COPYCCTX) { c2 = ZSTD_createCCtx(); if (!c2) exit(2); e = ZSTD_copyCCtx(c2, c, pledged); if (ZSTD_isError(e)) { ZSTD_freeCCtx(c2); return e; } cc = c2; }
+    if (api == HA_BUFFERLESS_SCATTER) keep = (void**)calloc((size_t)S->nseg + 1, sizeof(void*));
+    for (int s = 0; s < S->nseg; s++) {
+        size_t const len = S->seg[s].len; const uint8_t* p = src + inPos; int const last = (s == S->nseg - 1);
+        if (keep) { uint8_t* q = (uint8_t*)malloc(len + 1); if (!q) exit(2); memcpy(q, p, len); keep[nkeep++] = q; p = q; }   /* every segment lives in its own memory: non-contiguous history */
+        e = last ? ZSTD_compressEnd(cc, dst + op, dstCap - op, p, len) : ZSTD_compressContinue(cc, dst + op, dstCap - op, p, len);
+        if (ZSTD_isError(e)) break;
+        op += e; inPos += len;
+    }
+    for (int i = 0; i < nkeep; i++) free(keep[i]); free(keep); ZSTD_freeCCtx(c2);
+    return ZSTD_isError(e) ? e : op;
+}
+#include "zbuff.h"
+static size_t h_run_zbuff(int level, const uint8_t* dict, size_t dictLen, const uint8_t* src, size_t n, const hscript* S, uint8_t* dst, size_t dstCap, long* callBudgetExceeded)
+{
+    ZBUFF_CCtx* z = ZBUFF_createCCtx(); if (!z) exit(2); size_t inPos = 0, op = 0; int oi = 0; long calls = 0; size_t e;
+    long const maxCalls = 64 + 8 * (long)S->nseg + 8 * (long)(ZSTD_compressBound(n) / (S->outPat[0] ? S->outPat[0] : 1)) + (long)(n / 16);
+    e = dict ? ZBUFF_compressInitDictionary(z, dict, dictLen, level) : ZBUFF_compressInit(z, level);
+    for (int s = 0; s < S->nseg && !ZSTD_isError(e); s++) {
+        size_t ip = 0; size_t const len = S->seg[s].len; int const dir = S->seg[s].dir;
+        while (ip < len) { size_t room = S->outPat[oi++ % S->nOut]; if (room > dstCap - op) room = dstCap - op; size_t ssz = len - ip; e = ZBUFF_compressContinue(z, dst + op, &room, src + inPos + ip, &ssz); if (ZSTD_isError(e)) break; ip += ssz; op += room;
+            if (room == 0 && op == dstCap) { e = (size_t)-ZSTD_error_dstSize_tooSmall; break; } if (++calls > maxCalls) { if (callBudgetExceeded) *callBudgetExceeded = calls; e = (size_t)-ZSTD_error_GENERIC; break; } }
+        if (ZSTD_isError(e)) break;
+        if (dir != ZSTD_e_continue) do { size_t room = S->outPat[oi++ % S->nOut]; if (room > dstCap - op) room = dstCap - op; if (room == 0) { e = (size_t)-ZSTD_error_dstSize_tooSmall; break; }
+            e = (dir == ZSTD_e_flush) ? ZBUFF_compressFlush(z, dst + op, &room) : ZBUFF_compressEnd(z, dst + op, &room); if (ZSTD_isError(e)) break; op += room;
+            if (++calls > maxCalls) { if (callBudgetExceeded) *callBudgetExceeded = calls; e = (size_t)-ZSTD_error_GENERIC; break; } } while (e > 0);
+        inPos += len;
+    }
+    ZBUFF_freeCCtx(z);
+    return ZSTD_isError(e) ? e : op;
+}
+
 /* decoder history: random segmentation of input and output; returns produced size or error; *retAtEnd = last return value */
 typedef struct { size_t inChunk[4]; size_t outChunk[4]; int n; int stableOut; } dscript;
 static void d_gen_script(vrng* r, dscript* D, size_t csz)
